@@ -110,6 +110,13 @@ async fn origins_case(case: &Value, root: PathBuf, base: &Path) -> Value {
 			}
 			dirs.push(d);
 		}
+		// a very large directory on the chain: `filler` plain files in the start directory besides its entries
+		if let Some(n) = case["filler"].as_u64() {
+			let d = &dirs[case["start"].as_u64().unwrap() as usize];
+			for k in 0..n {
+				std::fs::write(d.join(format!("filler{k:05}.dat")), b"").unwrap();
+			}
+		}
 		for (i, lvl) in levels.iter().enumerate() {
 			for ent in lvl.as_array().unwrap() {
 				let name = ent[0].as_str().unwrap();
